@@ -26,6 +26,23 @@ def modBind (s : State) (svc : SvcName) (prov owner : Addr) (dep : Option Nat) (
   let r := bind { s with cfg := { s.cfg with modsvc := none } } svc prov owner dep text qos
   ({ r.1 with cfg := s.cfg }, r.2.1, r.2.2)
 
+/-- `RequestModuleService` once the context `x` is stored under `id` in `s1` (`s` is the state before the message: any
+    failure rolls the whole transaction back to it) -/
+def requestModSvc (s s1 : State) (id : CtxId) (x : Ctx) (svc : SvcName) (prov cons : Addr) (code : Nat) (out : OutKind) : Out :=
+  if (eligible s1 x).isEmpty then fail s .invalidModuleService
+  else match bankSend s1.bank cons s1.cfg.escrow (sumPrices (eligible s1 x)) with
+  | none => fail s .insufficientFunds
+  | some bank' =>
+    let price := priceOf (storedPricing s1 svc prov) s1.time ((Map.get s1.volume (cons, svc, prov)).getD 0)
+    let s2 := setCtx (issueReqs { s1 with bank := bank' } id x [(prov, price)] 0) id
+                { x with batch := x.batch + 1, bstate := .running, respN := 0, reqN := 1, bthr := x.thr }
+    let r : ReqId := { ctx := id, batch := 1, height := s.height.toNat, index := 0 }
+    match respond s2 r prov code out with
+    | (s3, .ok, e3) =>
+      (s3, .ok, (if sumPrices (eligible s1 x) = 0 then [] else [.transfer cons s.cfg.escrow (sumPrices (eligible s1 x))])
+                ++ [.evReqs id 1] ++ e3)
+    | (_, res, _) => (s, res, [])
+
 /-- `handleMsgCallService` for the reserved service name; `prov` is the provider of the registration,
     `code`/`out` the answer of the module's `ReuquestService` -/
 def callMod (s : State) (id : CtxId) (svc : SvcName) (prov cons : Addr) (cap : Option Nat) (inputOk : Bool)
@@ -34,20 +51,7 @@ def callMod (s : State) (id : CtxId) (svc : SvcName) (prov cons : Addr) (cap : O
   | (s1, .ok, _) =>
     match Map.get s1.ctxs id with
     | none => fail s .unknownRequestContext
-    | some x =>
-      if (eligible s1 x).isEmpty then fail s .invalidModuleService
-      else match bankSend s1.bank cons s1.cfg.escrow (sumPrices (eligible s1 x)) with
-      | none => fail s .insufficientFunds
-      | some bank' =>
-        let price := priceOf (storedPricing s1 svc prov) s1.time ((Map.get s1.volume (cons, svc, prov)).getD 0)
-        let s2 := setCtx (issueReqs { s1 with bank := bank' } id x [(prov, price)] 0) id
-                    { x with batch := x.batch + 1, bstate := .running, respN := 0, reqN := 1, bthr := x.thr }
-        let r : ReqId := { ctx := id, batch := 1, height := s.height.toNat, index := 0 }
-        match respond s2 r prov code out with
-        | (s3, .ok, e3) =>
-          (s3, .ok, (if sumPrices (eligible s1 x) = 0 then [] else [.transfer cons s.cfg.escrow (sumPrices (eligible s1 x))])
-                    ++ [.evReqs id 1] ++ e3)
-        | (_, res, _) => (s, res, [])
+    | some x => requestModSvc s s1 id x svc prov cons code out
   | (_, res, _) => (s, res, [])
 
 end SM
